@@ -15,6 +15,12 @@ open ZnVerif.Properties.C05
 #print axioms leftover_error_at_first_leftover_token
 #print axioms overindented_line_after_fix
 #print axioms overindented_line_before_fix
+#print axioms input_state_error_at_block_ending_token
+#print axioms input_state_error_before_fix
+#print axioms exec_block_ends_outside_input_state
+#print axioms line_after_input_line_after_fix
+#print axioms line_after_input_line_before_fix
+#print axioms input_line_last_after_fix
 
 -- input-variable texts (C05VarInput)
 #print axioms ZnVerif.Properties.C05VarInput.varinput_compiles_cleanly
